@@ -60,6 +60,9 @@ func (g *Gen) collect(op *Op, items []*Node, parent, concrete string, visited ma
 
 // shapeOfSel: the selection sets `sets` (all selected on a value of static type typeName).
 func (g *Gen) shapeOfSel(op *Op, sets [][]*Node, parents []string, typeName string) string {
+	// the datasource always returns __typename for the objects of _entities (scaffoldEntityLookup):
+	// that member is part of the federation contract, so it is expected even when not selected
+	implicitTypename := typeName == "_Entity"
 	var variants []string
 	for _, concrete := range g.S.PossibleOf(typeName) {
 		var acc []*collected
@@ -90,6 +93,17 @@ func (g *Gen) shapeOfSel(op *Op, sets [][]*Node, parents []string, typeName stri
 				}
 			}
 			parts = append(parts, common.L("k", common.QS(c.key), common.I(first.UID), ty))
+		}
+		if implicitTypename {
+			has := false
+			for _, c := range acc {
+				if c.key == "__typename" {
+					has = true
+				}
+			}
+			if !has {
+				parts = append(parts, common.L("k", common.QS("__typename"), "0", "(tn)"))
+			}
 		}
 		variants = append(variants, common.L(parts...))
 	}
